@@ -325,7 +325,7 @@ Theorem C20_multiassign_collision_depends_on_history :
 Proof. exact multiassign_collision_depends_on_history. Qed.
 Print Assumptions C20_multiassign_collision_depends_on_history.
 
-(* RULE AS COMMITTED (156ba8a, e4a742c): a version name is prefixed with "_" until it is neither an
+(* RULE AS COMMITTED (156ba8a, e4a742c, 221667c): a version name is prefixed with "_" until it is neither an
    identifier of the program text nor an existing variable: it never equals one of those ... *)
 Theorem C20_version_name_avoids_existing :
   forall avoid var i, ~ In (version_name avoid var i) avoid.
@@ -340,16 +340,16 @@ Theorem C20_unique_var_avoids_reserved :
 Proof. exact unique_var_avoids. Qed.
 Print Assumptions C20_unique_var_avoids_reserved.
 
-(* ... but version names are not registered: a name handed out LATER (ConditionsReducer's _r<k>, ...)
-   can still equal a version name, at one counter value (finding, reproduced on the real code) *)
-Theorem C20_version_then_counter_collision_refuted :
+(* OLD RULE (e4a742c, before 221667c): version names were not registered: a name handed out LATER
+   (ConditionsReducer's _r<k>, ...) could equal a version name, at one counter value (found by this check) *)
+Theorem C20_version_then_counter_collision_old_rule_refuted :
   ~ (forall avoid reserved var i tag k,
        (forall x, In x reserved -> In x avoid) ->
        fst (unique_var reserved (List.length reserved) tag k) <> version_name avoid var i).
-Proof. exact version_then_counter_collision_refuted. Qed.
-Print Assumptions C20_version_then_counter_collision_refuted.
+Proof. exact version_then_counter_collision_old_rule_refuted. Qed.
+Print Assumptions C20_version_then_counter_collision_old_rule_refuted.
 
-(* proposed repair: register every version name as reserved; then no later name equals it *)
+(* rule since 221667c: every version name is registered as reserved; then no later name equals it *)
 Theorem C20_reserved_versions_never_collide :
   forall avoid reserved var i tag k,
     In (version_name avoid var i) reserved ->
@@ -357,7 +357,15 @@ Theorem C20_reserved_versions_never_collide :
 Proof. exact reserved_versions_never_collide. Qed.
 Print Assumptions C20_reserved_versions_never_collide.
 
-(* alternative repair: the spelling "_<var>_<i>" is never a counter name of one of Polar's tags *)
+(* the transformer step as committed: the picked name is fresh for the program AND for every later get_unique_var *)
+Theorem C20_later_names_avoid_versions :
+  forall avoid reserved var i tag k,
+  let '(nm, reserved') := register_version avoid reserved var i in
+  fst (unique_var reserved' (List.length reserved') tag k) <> nm /\ ~ In nm avoid.
+Proof. exact later_names_avoid_versions. Qed.
+Print Assumptions C20_later_names_avoid_versions.
+
+(* alternative repair (not taken): the spelling "_<var>_<i>" is never a counter name of one of Polar's tags *)
 Theorem C20_multiassign_fixed_never_collides :
   forall var i tag k, In tag polar_tags -> ma_name_fixed var i <> gen_name tag k.
 Proof. exact multiassign_fixed_never_collides_polar. Qed.
